@@ -203,8 +203,10 @@ pub fn prepare(text: &str, mode: u8, settings: &Settings) -> Result<Prepared, St
             let n = s.len();
             let mut parts = Vec::new();
             for (i, o) in s.iter().enumerate() {
-                // the gradual calculator recomputes the combo from times: unscaled for the
-                // first object, `(t / clock_rate) * clock_rate` for all later ones
+                // before /repo 1b784a7 the gradual calculator recomputed the combo from times
+                // (unscaled for the first object, `(t / clock_rate) * clock_rate` for later ones);
+                // `mania_inc_mismatch` marks the inputs on which that differed (regression inputs,
+                // counted in the evidence as `mania:inc-mismatch`)
                 let (st, et) = if i == 0 {
                     (o.start_time, o.end_time)
                 } else {
@@ -214,7 +216,7 @@ pub fn prepare(text: &str, mode: u8, settings: &Settings) -> Result<Prepared, St
                 if inc_grad != o.combo {
                     mania_inc_mismatch = true;
                 }
-                parts.push(format!("{}:{}:{}", u8::from(o.is_circle), o.combo, inc_grad));
+                parts.push(format!("{}:{}", u8::from(o.is_circle), o.combo));
             }
             (parts.join(";"), n)
         }
@@ -367,15 +369,9 @@ pub fn check_walk(run: &mut Run, case_id: &str, p: &Prepared) {
         }
         let exp = &p.table[j];
         if dbg(v) != dbg(exp) {
-            // mania: only max_combo differs and the model predicts the increment mismatch
-            let mut cls = class;
-            if p.mode == 3 && p.mania_inc_mismatch && skill_sig(v) == skill_sig(exp) {
-                if let (DifficultyAttributes::Mania(a), DifficultyAttributes::Mania(b)) = (v, exp) {
-                    if a.n_objects == b.n_objects && a.n_hold_notes == b.n_hold_notes && a.is_convert == b.is_convert {
-                        cls = "mania-gradual-combo-roundtrip";
-                    }
-                }
-            }
+            // (the former class mania-gradual-combo-roundtrip is fixed in /repo 1b784a7: a combo
+            // difference on such inputs is an ordinary, unlisted failure again)
+            let cls = class;
             run.fail(
                 "oracle:value-ne-oneshot",
                 cls,
@@ -391,9 +387,6 @@ pub fn check_walk(run: &mut Run, case_id: &str, p: &Prepared) {
             let mut cls = class;
             if p.mode == 1 && p.taiko_regular_start && !p.taiko_trailing_hit && values.len() == p.units {
                 cls = "taiko-gradual-trailing-nonhit";
-            }
-            if p.mode == 3 && p.mania_inc_mismatch && skill_sig(last) == skill_sig(&p.full) {
-                cls = "mania-gradual-combo-roundtrip";
             }
             run.fail(
                 "oracle:last-ne-full",
